@@ -17,6 +17,7 @@ import json, itertools
 import dom_common as D
 
 ELEMS = ['P', 'Span', 'Section', 'List', 'ListItem', 'H']
+EMPTY_ELEMS = ['LineBreak', 'S', 'Tab', 'TextProperties']     # grammar-empty kinds; several of them alive at once
 
 
 # ---------------------------------------------------------------------------------------------
@@ -196,7 +197,7 @@ def prologue(rng, attached, n_elem=5, n_text=3, n_cdata=1, same_text=False):
         if attached and i == 0:
             ops.append(['new', 'e', 0, '@doctext'])
         else:
-            ops.append(['new', 'e', i, rng.choice(ELEMS) if rng else ['Section', 'P', 'Span', 'P', 'Span'][i % 5]])
+            ops.append(['new', 'e', i, (rng.choice(EMPTY_ELEMS) if rng.random() < 0.3 else rng.choice(ELEMS)) if rng else ['Section', 'P', 'Span', 'P', 'Span'][i % 5]])
     # text nodes with EQUAL content (all non-empty ones hold the same string), one or two of them empty
     if same_text:
         datas = [None] * n_text
